@@ -9,7 +9,7 @@ from hypothesis import strategies as st
 from plumpy import communications, loaders, persistence, process_comms
 
 from .. import gen, loaders_h, world
-from ..programs import ProgError, make_class
+from ..programs import InjectedFault, ProgError, make_class
 from ..steploop import StepLoop
 
 ID = 'C17'
@@ -36,9 +36,11 @@ PROGS = {
     'W': {'steps': [S([['out', 'a', 1]], ['wait', 1, 'w', None]), S([['out', 'b', 2]], ['value', 7])]},
     'W2': {'steps': [S([['out', 'a', 1]], ['wait', 1, None, None]), S([['yield'], ['out', 'b', 2]], ['wait', 2, None, None], True), S([['out', 'c', 3]], ['value', 9])]},
     'X': {'steps': [S([['out', 'a', 1]], ['raise', 'fail'])]},
+    # finishes, but its on_finished hook raises afterwards (armed per launch): ends EXCEPTED after having set its outputs
+    'H': {'steps': [S([['out', 'h', 1]], ['value', 6])], 'raise_in_hook': ['on_finished', 'post']},
 }
-STEPS = {'F': ['run'], 'W': ['run', 's1'], 'W2': ['run', 's1', 's2'], 'X': ['run']}
-OUTPUTS = {'F': {'x': 1}, 'W': {'a': 1, 'b': 2}, 'W2': {'a': 1, 'b': 2, 'c': 3}}
+STEPS = {'F': ['run'], 'W': ['run', 's1'], 'W2': ['run', 's1', 's2'], 'X': ['run'], 'H': ['run']}
+OUTPUTS = {'F': {'x': 1}, 'W': {'a': 1, 'b': 2}, 'W2': {'a': 1, 'b': 2, 'c': 3}, 'H': {'h': 1}}
 TAGS = [None, 'a', 'b']
 
 
@@ -321,7 +323,7 @@ def execute(case):
                 want = STEPS[inst['prog']][inst['base'] :]
                 if got != want:
                     v('executed-steps', f"{inst['origin']} of {inst['prog']} (pid {proc.pid}) from position {inst['base']}: executed {got}, expected {want}")
-                exp_state = 'excepted' if inst['prog'] == 'X' else 'finished'
+                exp_state = 'excepted' if inst['prog'] in ('X', 'H') else 'finished'
                 if proc.state.value != exp_state:
                     v('final-state', f"{inst['origin']} of {inst['prog']} ended {proc.state.value}")
             for where, fut, exp in replies:
@@ -329,6 +331,13 @@ def execute(case):
                 if exp['prog'] == 'X':
                     if out[0] != 'raise' or not isinstance(out[1], ProgError):
                         v('reply', f"{where}: expected the process's error, reply is {out!r}")
+                elif exp['prog'] == 'H':
+                    proc = exp['proc']
+                    if proc is not None and proc.state.value == 'excepted':
+                        if out[0] != 'raise' or not isinstance(out[1], InjectedFault):
+                            v('reply', f"{where}: the process ended EXCEPTED (on_finished raised) but the reply is {out!r}")
+                    elif out != ('ok', {'h': 1}):
+                        v('reply', f"{where}: reply {out!r}")
                 elif out != ('ok', OUTPUTS[exp['prog']]):
                     v('reply', f"{where}: reply {out!r}, expected the outputs {OUTPUTS[exp['prog']]}")
             if persister is not None:
@@ -336,7 +345,7 @@ def execute(case):
                 if keys != set(store):
                     v('persister-content', f'persister holds {sorted(map(str, keys))}, expected {sorted(map(str, store))}')
             for ctx in loop.escapes():
-                if isinstance(ctx.get('exception'), (ProgError, kiwipy.TaskRejected)):
+                if isinstance(ctx.get('exception'), (ProgError, InjectedFault, kiwipy.TaskRejected)):
                     continue  # a failing process / rejected task fails the task that runs it: that is the reply, not an escape
                 if ctx['exc_type'] in ('KeyError', 'FileNotFoundError'):
                     continue
